@@ -15,11 +15,11 @@ use rnacos::raft::store::ClientRequest;
 use std::sync::mpsc as smpsc;
 use std::sync::Arc;
 
-type OpMsg = (String, smpsc::Sender<String>);
+pub type OpMsg = (String, smpsc::Sender<String>);
 
-struct Session {
-    tx: tokio::sync::mpsc::UnboundedSender<OpMsg>,
-    handle: std::thread::JoinHandle<()>,
+pub struct Session {
+    pub tx: tokio::sync::mpsc::UnboundedSender<OpMsg>,
+    pub handle: std::thread::JoinHandle<()>,
 }
 
 fn n(s: &str) -> u64 {
@@ -45,7 +45,7 @@ fn show(e: &Entry<ClientRequest>) -> String {
     }
 }
 
-async fn run_op(store: &FileStore, log_manager: &Addr<RaftLogManager>, l: &str) -> String {
+async fn run_op(store: &FileStore, log_manager: &Addr<RaftLogManager>, index_manager: &Addr<RaftIndexManager>, l: &str) -> String {
     let ws: Vec<&str> = l.split_whitespace().collect();
     match ws.as_slice() {
         ["a", i, t, len, sd] => match store.append_entry_to_log(&entry(n(i), n(t), n(len), n(sd))).await {
@@ -104,12 +104,34 @@ async fn run_op(store: &FileStore, log_manager: &Addr<RaftLogManager>, l: &str) 
                 Err(_) => "err".to_string(),
             }
         }
+        ["hs", t, v] => {
+            let hs = async_raft_ext::storage::HardState { current_term: n(t), voted_for: if n(v) == 0 { None } else { Some(n(v)) } };
+            match store.save_hard_state(&hs).await {
+                Ok(_) => "ok".to_string(),
+                Err(_) => "err".to_string(),
+            }
+        }
+        ["applied", k] => match index_manager.send(rnacos::raft::filestore::raftindex::RaftIndexRequest::SaveLastAppliedLog(n(k))).await {
+            Ok(Ok(_)) => "ok".to_string(),
+            _ => "err".to_string(),
+        },
+        ["init"] => match store.get_initial_state().await {
+            Ok(st) => format!(
+                "init last={}:{} applied={} hs={}:{}",
+                st.last_log_index,
+                st.last_log_term,
+                st.last_applied_log,
+                st.hard_state.current_term,
+                st.hard_state.voted_for.unwrap_or(0)
+            ),
+            Err(_) => "err".to_string(),
+        },
         ["files"] => "files".to_string(),
         _ => "bad-op".to_string(),
     }
 }
 
-fn start_session(dir: std::path::PathBuf) -> Option<Session> {
+pub fn start_session(dir: std::path::PathBuf) -> Option<Session> {
     let (tx, mut rx) = tokio::sync::mpsc::unbounded_channel::<OpMsg>();
     let (ready_tx, ready_rx) = smpsc::channel::<bool>();
     let handle = std::thread::spawn(move || {
@@ -120,12 +142,12 @@ fn start_session(dir: std::path::PathBuf) -> Option<Session> {
             let log_manager = RaftLogManager::new(base_path.clone(), Some(index_manager.clone())).start();
             let snapshot_manager = RaftSnapshotManager::new(base_path.clone(), Some(index_manager.clone())).start();
             let apply_manager = StateApplyManager::new().start();
-            let store = FileStore::new(1, index_manager, snapshot_manager, log_manager.clone(), apply_manager);
+            let store = FileStore::new(1, index_manager.clone(), snapshot_manager, log_manager.clone(), apply_manager);
             // first round trip: the managers have finished their asynchronous start
             let ok = store.get_last_log_index().await.is_ok();
             let _ = ready_tx.send(ok);
             while let Some((op, reply)) = rx.recv().await {
-                let r = run_op(&store, &log_manager, &op).await;
+                let r = run_op(&store, &log_manager, &index_manager, &op).await;
                 let _ = reply.send(r);
             }
             // let the periodic flush of the log actors run once more before everything is dropped
@@ -138,7 +160,7 @@ fn start_session(dir: std::path::PathBuf) -> Option<Session> {
     }
 }
 
-fn close(s: Option<Session>) {
+pub fn close(s: Option<Session>) {
     if let Some(s) = s {
         drop(s.tx);
         let _ = s.handle.join();
